@@ -154,6 +154,13 @@ def run_property(pid, tier, rules, seed=0, record_floors=False, replay_key=None,
                 fn(ctx, r)
             except AnchorMissing as e:
                 r.broken.append(str(e))
+            except Broken:
+                raise
+            except Exception as e:
+                import traceback
+                tb = traceback.extract_tb(e.__traceback__)
+                where = "%s:%d" % (os.path.basename(tb[-1].filename), tb[-1].lineno) if tb else "?"
+                r.broken.append("rule could not be evaluated on this tree (%s: %s at %s)" % (type(e).__name__, str(e)[:120], where))
             reports.append(r)
     except Broken as e:
         say("CHECK-BROKEN property=%s %s" % (pid, str(e)))
